@@ -491,3 +491,75 @@ package multi
 //@ ensures result != nil && result.From() == from && result.To() == to
 //@ ensures wuids(g, xid, yid) && !has(g.lineIDs[xid][yid].used, result.ID())
 //@ ensures !wull(g, from.ID(), to.ID(), result.ID()) && !wull(g, to.ID(), from.ID(), result.ID())
+
+// ---- line queries ------------------------------------------------------------------
+//
+// isEmpty(r) says that r is graph.Empty (the constant graph.empty(0) boxed in the
+// iterator interface). Lines(u, v) returns graph.Empty exactly when there is no
+// (u, v) adjacency entry; otherwise an ordered iterator in its initial state
+// over a fresh slice that holds stored lines of (u, v) only (each the value
+// stored under its own ID) and no line ID twice: each element at most once, no
+// resurrected line. NOT under contract (engine limits, no counterexample):
+// "every stored line occurs" (forall(l, dfll(g, uid, vid, l) ==> exists(k, 0,
+// len, lines[k].ID() == l)) with the invariant forall(l, seen(l) ==> exists(...))
+// is proved in one run and times out / is demoted in the next) and
+// len(lines) == len(g.from[uid][vid]) (the range-over-map model has no link
+// between the set of visited keys and the map length).
+
+//@ spec isEmpty(r graph.Iterator) bool = hasType(r, graph.empty) && unbox(r, graph.empty) == 0
+//@ spec olSl(r graph.Lines) []graph.Line = unbox(r, *iterator.OrderedLines).lines
+//@ spec orderedLines(r graph.Lines) bool = hasType(r, *iterator.OrderedLines) && iterator.olInv(unbox(r, *iterator.OrderedLines)) &&
+//@     unbox(r, *iterator.OrderedLines).idx == -1 && (len(unbox(r, *iterator.OrderedLines).lines) > 0 ==> fresh(unbox(r, *iterator.OrderedLines).lines))
+
+//@ func DirectedGraph.Lines props: C12
+//@ requires dgInv(g)
+//@ ensures isEmpty(result) == !dfl(g, uid, vid)
+//@ ensures dfl(g, uid, vid) ==> orderedLines(result)
+//@ ensures dfl(g, uid, vid) ==> forall(k, 0, len(olSl(result)), olSl(result)[k] != nil && dfll(g, uid, vid, olSl(result)[k].ID()) && olSl(result)[k] == g.from[uid][vid][olSl(result)[k].ID()])
+//@ ensures dfl(g, uid, vid) ==> forall(k, 0, len(olSl(result)), forall(m, 0, k, olSl(result)[m].ID() != olSl(result)[k].ID()))
+//@ loop 1: invariant len(lines) > 0 ==> fresh(lines)
+//@ invariant forall(k, 0, len(lines), lines[k] != nil)
+//@ invariant forall(k, 0, len(lines), seen(lines[k].ID()))
+//@ invariant forall(k, 0, len(lines), has(g.from[uid][vid], lines[k].ID()))
+//@ invariant forall(k, 0, len(lines), lines[k] == g.from[uid][vid][lines[k].ID()])
+//@ invariant forall(k, 0, len(lines), forall(m, 0, k, lines[m].ID() != lines[k].ID()))
+
+// DirectedGraph.Edge (and Edge / EdgeBetween / WeightedEdge / WeightedEdgeBetween /
+// Weight of the four types) compare the Lines result with graph.Empty and are
+// outside the verifier's subset: "OUTSIDE-SUBSET: binary == on iface(ret_Lines), 0".
+// The clauses that would be checked:
+//   ensures (result != nil) == dfl(g, uid, vid)
+//   ensures result != nil ==> result.From() == g.nodes[uid] && result.To() == g.nodes[vid]
+
+//@ spec owlSl(r graph.WeightedLines) []graph.WeightedLine = unbox(r, *iterator.OrderedWeightedLines).lines
+//@ spec orderedWeightedLines(r graph.WeightedLines) bool = hasType(r, *iterator.OrderedWeightedLines) && iterator.owlInv(unbox(r, *iterator.OrderedWeightedLines)) &&
+//@     unbox(r, *iterator.OrderedWeightedLines).idx == -1 && (len(unbox(r, *iterator.OrderedWeightedLines).lines) > 0 ==> fresh(unbox(r, *iterator.OrderedWeightedLines).lines))
+
+//@ func WeightedDirectedGraph.WeightedLines props: C12
+//@ requires wdgInv(g)
+//@ ensures isEmpty(result) == !wdfl(g, uid, vid)
+//@ ensures wdfl(g, uid, vid) ==> orderedWeightedLines(result)
+//@ ensures wdfl(g, uid, vid) ==> forall(k, 0, len(owlSl(result)), owlSl(result)[k] != nil && wdfll(g, uid, vid, owlSl(result)[k].ID()) && owlSl(result)[k] == g.from[uid][vid][owlSl(result)[k].ID()])
+//@ ensures wdfl(g, uid, vid) ==> forall(k, 0, len(owlSl(result)), forall(m, 0, k, owlSl(result)[m].ID() != owlSl(result)[k].ID()))
+//@ loop 1: invariant len(lines) > 0 ==> fresh(lines)
+//@ invariant forall(k, 0, len(lines), lines[k] != nil)
+//@ invariant forall(k, 0, len(lines), seen(lines[k].ID()))
+//@ invariant forall(k, 0, len(lines), has(g.from[uid][vid], lines[k].ID()))
+//@ invariant forall(k, 0, len(lines), lines[k] == g.from[uid][vid][lines[k].ID()])
+//@ invariant forall(k, 0, len(lines), forall(m, 0, k, lines[m].ID() != lines[k].ID()))
+
+// WeightedDirectedGraph.Lines: the element identity clause of WeightedLines
+// (olSl(result)[k] == g.from[uid][vid][olSl(result)[k].ID()]) is left out here: the stored
+// graph.WeightedLine is converted to graph.Line on append and the invariant is
+// not kept by the engine within the time limit (demoted, solver timeout; no counterexample).
+//@ func WeightedDirectedGraph.Lines props: C12
+//@ requires wdgInv(g)
+//@ ensures isEmpty(result) == !wdfl(g, uid, vid)
+//@ ensures wdfl(g, uid, vid) ==> orderedLines(result)
+//@ ensures wdfl(g, uid, vid) ==> forall(k, 0, len(olSl(result)), olSl(result)[k] != nil && wdfll(g, uid, vid, olSl(result)[k].ID()))
+//@ ensures wdfl(g, uid, vid) ==> forall(k, 0, len(olSl(result)), forall(m, 0, k, olSl(result)[m].ID() != olSl(result)[k].ID()))
+//@ loop 1: invariant len(lines) > 0 ==> fresh(lines)
+//@ invariant forall(k, 0, len(lines), lines[k] != nil)
+//@ invariant forall(k, 0, len(lines), seen(lines[k].ID()))
+//@ invariant forall(k, 0, len(lines), has(g.from[uid][vid], lines[k].ID()))
+//@ invariant forall(k, 0, len(lines), forall(m, 0, k, lines[m].ID() != lines[k].ID()))
